@@ -1,5 +1,5 @@
 (** * C07: evaluating a number literal never fails when no digit run is
-    longer than 307 characters (numeric part). *)
+    longer than 308 characters (numeric part). *)
 From Coq Require Import List ZArith NArith Bool Lia Arith.
 From RG Require Import Base.Str Base.Dec Base.Num Model.Recipe Model.Compiler Model.Parser Model.Printer
   Proofs.DecLemmas Proofs.ParserLex.
@@ -53,6 +53,48 @@ Proof.
     exists (rne_div a b), e. split; [reflexivity|]. split; [lia | lia].
 Qed.
 
+(** The same up to the largest value that does not round to 2^1024. *)
+Definition top : Z := 2 ^ 1024 - 2 ^ 970.
+
+Lemma g_972_small n d : 0 < n -> 0 < d -> n < d * 2 ^ 1024 -> LintB64.g n d 972 < 2 ^ 52.
+Proof.
+  intros Hn Hd Hb. unfold LintB64.g, scaled. change (0 <=? 972) with true. cbv iota.
+  apply Z.div_lt_upper_bound; [lia|]. change (2 ^ 1024) with (2 ^ 972 * 2 ^ 52) in Hb. lia.
+Qed.
+
+Lemma b64_pos_bounds_top n d : 0 < n -> 0 < d -> n < d * top ->
+  exists m e, b64_pos n d = Some (m, e) /\ 0 <= m <= 2 ^ 53 /\ e <= 971.
+Proof.
+  intros Hn Hd Hb.
+  destruct (Z_lt_ge_dec n (d * 2 ^ 1023)) as [Lo|Hi]; [exact (b64_pos_bounds n d Hn Hd Lo)|].
+  assert (Hb' : n < d * 2 ^ 1024) by (unfold top in Hb; assert (0 < 2 ^ 970) by (apply Z.pow_pos_nonneg; lia); nia).
+  assert (He1 : LintB64.e1_of n d = 971).
+  { pose proof (LintB64.exp_spec n d Hn Hd) as [S1 S2].
+    destruct (Z.lt_trichotomy (LintB64.e1_of n d) 971) as [L|[E|G]]; [exfalso | exact E | exfalso].
+    - (* e1 <= 970: g at e1 >= g at 970... but n >= d 2^1023 makes g n d 970 >= 2^53 *)
+      pose proof (LintB64.g_antitone n d (LintB64.e1_of n d) (970 - LintB64.e1_of n d) Hn Hd ltac:(lia)) as A.
+      replace (LintB64.e1_of n d + (970 - LintB64.e1_of n d)) with 970 in A by ring.
+      assert (G0 : 2 ^ 53 <= LintB64.g n d 970).
+      { unfold LintB64.g, scaled. change (0 <=? 970) with true. cbv iota.
+        apply Z.div_le_lower_bound; [lia|]. change (2 ^ 1023) with (2 ^ 970 * 2 ^ 53) in Hi. lia. }
+      lia.
+    - pose proof (LintB64.g_antitone n d 972 (LintB64.e1_of n d - 972) Hn Hd ltac:(lia)) as A.
+      replace (972 + (LintB64.e1_of n d - 972)) with (LintB64.e1_of n d) in A by ring.
+      pose proof (g_972_small n d Hn Hd Hb'). lia. }
+  rewrite LintB64.b64_pos_eq. unfold LintB64.round_at. rewrite He1. change (Z.max 971 (-1074)) with 971.
+  unfold scaled. change (0 <=? 971) with true. cbv iota.
+  assert (Hb2 : 0 < d * 2 ^ 971) by (apply Z.mul_pos_pos; [lia | apply Z.pow_pos_nonneg; lia]).
+  pose proof (NumFmtProofs.rne_div_spec n (d * 2 ^ 971) Hb2) as [[_ U] _].
+  pose proof (NumFmtProofs.rne_div_nonneg n (d * 2 ^ 971) ltac:(lia) Hb2) as Hr0.
+  assert (Hlt : rne_div n (d * 2 ^ 971) < 2 ^ 53).
+  { unfold top in Hb. change (2 ^ 1024) with (2 ^ 971 * 2 ^ 53) in Hb. change (2 ^ 970) with (2 ^ 970 * 1) in Hb.
+    change (2 ^ 971) with (2 ^ 970 * 2) in *. set (P := 2 ^ 970) in *. assert (0 < P) by (apply Z.pow_pos_nonneg; lia).
+    set (q := rne_div n (d * (P * 2))) in *. clearbody q. nia. }
+  assert (E : (rne_div n (d * 2 ^ 971) =? 2 ^ 53) = false) by (apply Z.eqb_neq; lia). rewrite E.
+  change (971 <? 971) with false. cbv iota.
+  exists (rne_div n (d * 2 ^ 971)), 971. split; [reflexivity|]. split; lia.
+Qed.
+
 (** [canon] keeps the value. *)
 Lemma canon_pos_value : forall p e, let (m, e2) := canon_pos p e in e <= e2 /\ m * 2 ^ (e2 - e) = Zpos p /\ 0 < m.
 Proof.
@@ -96,12 +138,12 @@ Qed.
 
 (** Non-negative [n / d] below 2^1023: [b64] succeeds and the result is a
     float of value at most 2^1024 (or zero). *)
-Lemma b64_safe n d : 0 <= n -> n < Zpos d * 2 ^ 1023 ->
+Lemma b64_safe n d : 0 <= n -> n < Zpos d * top ->
   exists f, b64 n d = Some f /\ let (fn, fd) := to_frac f in 0 <= fn /\ fn <= Zpos fd * 2 ^ 1024.
 Proof.
   intros Hn Hb. unfold b64. destruct n as [|p|p]; [| |lia].
   - exists (NFloat 0 0). split; [reflexivity|]. cbn. split; lia.
-  - destruct (b64_pos_bounds (Zpos p) (Zpos d) ltac:(lia) ltac:(lia) Hb) as [m [e [E [[Hm0 Hm] He]]]]. rewrite E.
+  - destruct (b64_pos_bounds_top (Zpos p) (Zpos d) ltac:(lia) ltac:(lia) Hb) as [m [e [E [[Hm0 Hm] He]]]]. rewrite E.
     exists (canon m e). split; [reflexivity|].
     destruct (Z.eq_dec m 0) as [->|Hne].
     + cbn. split; lia.
@@ -115,7 +157,7 @@ Lemma pct_int z : 0 <= z <= 2 ^ 1024 -> pct_ok (NInt z).
 Proof.
   intros [H0 H1]. unfold pct_ok, ndiv, exact_div. cbn [to_frac]. unfold round_q.
   destruct (b64_safe (z * 1) (1 * 100) ltac:(lia)) as [f [E _]].
-  { change (Zpos (1 * 100)) with 100. change (2 ^ 1024) with (2 * 2 ^ 1023) in H1. lia. }
+  { change (Zpos (1 * 100)) with 100. unfold top. change (2 ^ 1024) with (2 ^ 970 * 2 ^ 54) in *. assert (0 < 2 ^ 970) by (apply Z.pow_pos_nonneg; lia). set (P := 2 ^ 970) in *. assert (2 ^ 54 = 18014398509481984) by reflexivity. nia. }
   rewrite E. eexists. reflexivity.
 Qed.
 
@@ -132,27 +174,27 @@ Proof.
   destruct (to_frac (NFloat m e)) as [fn fd]. destruct B as [B0 B1].
   change (to_frac (NFloat 25 2)) with (100, 1%positive). unfold round_q.
   destruct (b64_safe (fn * 1) (fd * 100) ltac:(lia)) as [f [E _]].
-  { rewrite Pos2Z.inj_mul. change (2 ^ 1024) with (2 * 2 ^ 1023) in B1. lia. }
+  { rewrite Pos2Z.inj_mul. unfold top. change (2 ^ 1024) with (2 ^ 970 * 2 ^ 54) in *. assert (0 < 2 ^ 970) by (apply Z.pow_pos_nonneg; lia). set (P := 2 ^ 970) in *. assert (2 ^ 54 = 18014398509481984) by reflexivity. nia. }
   rewrite E. eexists. reflexivity.
 Qed.
 
 (** ** Literals *)
 Open Scope N_scope.
 
-Lemma pow10_307 : (Z.of_N (10 ^ 307) < 2 ^ 1023)%Z.
+Lemma pow10_308 : (Z.of_N (10 ^ 308) < top)%Z.
 Proof. vm_compute. reflexivity. Qed.
 
-Lemma val_small (d : str) : forallb is_digit d = true -> (List.length d <= 307)%nat ->
-  (0 <= Z.of_N (val_N d) < Z.of_N (10 ^ 307))%Z.
+Lemma val_small (d : str) : forallb is_digit d = true -> (List.length d <= 308)%nat ->
+  (0 <= Z.of_N (val_N d) < Z.of_N (10 ^ 308))%Z.
 Proof.
   intros Hd Hl. pose proof (val_N_lt d Hd) as V. split; [lia|].
-  assert (10 ^ N.of_nat (List.length d) <= 10 ^ 307) by (apply N.pow_le_mono_r; lia). lia.
+  assert (10 ^ N.of_nat (List.length d) <= 10 ^ 308) by (apply N.pow_le_mono_r; lia). lia.
 Qed.
 
-Lemma int_of_float_clean (d : str) : forallb is_digit d = true -> (List.length d <= 307)%nat ->
+Lemma int_of_float_clean (d : str) : forallb is_digit d = true -> (List.length d <= 308)%nat ->
   exists z, int_of_float_text d = (NInt z, None) /\ pct_ok (NInt z).
 Proof.
-  intros Hd Hl. pose proof (val_small d Hd Hl) as [V0 V]. pose proof pow10_307 as P.
+  intros Hd Hl. pose proof (val_small d Hd Hl) as [V0 V]. pose proof pow10_308 as P.
   unfold int_of_float_text. destruct (Z.of_N (val_N d) <? 2 ^ 53)%Z eqn:E.
   - eexists. split; [reflexivity|]. apply pct_int. apply Z.ltb_lt in E.
     assert (2 ^ 53 <= 2 ^ 1024)%Z by (apply Z.pow_le_mono_r; lia). lia.
@@ -162,15 +204,15 @@ Proof.
     apply Z.div_le_upper_bound; lia.
 Qed.
 
-Lemma float_of_text_clean (i f : str) : forallb is_digit i = true -> (List.length i <= 307)%nat ->
+Lemma float_of_text_clean (i f : str) : forallb is_digit i = true -> (List.length i <= 308)%nat ->
   forallb is_digit f = true ->
   exists v, float_of_text i f = (v, None) /\ pct_ok v.
 Proof.
-  intros Hi Hl Hf. pose proof (val_small i Hi Hl) as [V0 V]. pose proof pow10_307 as P.
+  intros Hi Hl Hf. pose proof (val_small i Hi Hl) as [V0 V]. pose proof pow10_308 as P.
   pose proof (val_N_lt f Hf) as Vf. unfold float_of_text.
   set (k := N.of_nat (List.length f)) in *.
   assert (K : 0 < 10 ^ k) by (apply N.neq_0_lt_0, N.pow_nonzero; discriminate).
-  assert (Hb : (Z.of_N (val_N i * 10 ^ k + val_N f) < Zpos (Z.to_pos (Z.of_N (10 ^ k))) * 2 ^ 1023)%Z).
+  assert (Hb : (Z.of_N (val_N i * 10 ^ k + val_N f) < Zpos (Z.to_pos (Z.of_N (10 ^ k))) * top)%Z).
   { rewrite Z2Pos.id by lia.
     assert ((Z.of_N (val_N i * 10 ^ k + val_N f) < (Z.of_N (val_N i) + 1) * Z.of_N (10 ^ k))%Z) by nia.
     nia. }
@@ -203,13 +245,13 @@ Lemma val_nonzero (d : str) : forallb is_digit d = true -> forallb (fun c => c =
 Proof. intros Hd Hz. apply val_acc_nonzero; [exact Hd | right; exact Hz]. Qed.
 
 Lemma frac_value_clean (i : option str) (n d : str) :
-  (List.length n <= 307)%nat -> (List.length d <= 307)%nat ->
-  match i with Some a => (List.length a <= 307)%nat | None => True end ->
+  (List.length n <= 308)%nat -> (List.length d <= 308)%nat ->
+  match i with Some a => (List.length a <= 308)%nat | None => True end ->
   forallb is_digit d = true -> forallb (fun c => c =? 48) d = false ->
   exists v, frac_value i n d = (v, None) /\ pct_ok v.
 Proof.
   intros Hn Hd Hi Hdd Hz. unfold frac_value.
-  assert (T : forall x : str, (List.length x <= 307)%nat -> too_long x = false).
+  assert (T : forall x : str, (List.length x <= 308)%nat -> too_long x = false).
   { intros x Hx. unfold too_long, int_max_str_digits. rewrite len_length. apply N.ltb_ge. lia. }
   rewrite (T n Hn), (T d Hd). cbn [orb]. destruct i as [a|]; [rewrite (T a Hi)|].
   - pose proof (val_nonzero d Hdd Hz). destruct (val_N d); [contradiction|].
